@@ -15,7 +15,8 @@ tie    : structural and exact.  harness/c18.cpp builds the REAL tree (public con
 spec   : the extracted decision procedure struct_okb (sound for `spec`, Properties_C18.struct_okb_sound)
          runs on the dump of the real tree; its exact means are compared with the dumped
          center_of_mass; theta = 0 sums are compared with O(N^2) all-pairs sums; theta = 2^-60 must
-         reproduce theta = 0 bit for bit.
+         reproduce theta = 0 bit for bit; for 0 < theta <= 1/sqrt(8) the sums must lie within the proved
+         bound (forces_error_bound) of the all-pairs sums.
 stream2: "tolerance stream" (a TEST, labelled so in the evidence): mean-centred constructor
          QuadTree(Y, N) on random doubles and explicit non-dyadic roots with points one ulp from the
          split lines; checked on the dump alone (nothing lost, masses add up, isCorrect, theta=0 sums
@@ -56,7 +57,7 @@ ASSUMPTIONS = [
 
 FUEL = 1100
 MAX_CRASHES = 4
-TH_STD = ["0:0", "1:-60", "1:-20", "1:-3", "1:-1", "1:0", "2:0"]
+TH_STD = ["0:0", "1:-60", "1:-20", "1:-6", "1:-3", "1:-1", "1:0", "2:0"]
 
 
 # ----------------------------------------------------------------------------- numbers
@@ -718,6 +719,26 @@ def check_impl_alone(ctx, c, d, pts, stats, report):
                 if 0 < th <= Fraction(1, 1 << 59) and d["F"][(ti, qi)] != f:
                     report("theta = 2^-60 does not reproduce theta = 0 for query %d: %r vs %r" % (qi, d["F"][(ti, qi)], f))
                     break
+    # Properties_C18.forces_error_bound on the implementation's own sums: 0 < theta, 8 theta^2 <= 1, no coincident points
+    if not co and n_ins == len(c["order"]):
+        for ti, th in enumerate(ths):
+            if not (0 < th and 8 * th * th <= 1):
+                continue
+            eps = float(9 * th + 8 * th * th)
+            kap = eps * (2 + eps) / 2
+            for qi in c["queries"]:
+                if qi not in d["ins"]:
+                    continue
+                f = d["F"][(ti, qi)]
+                e = allpairs(pts, d["ins"], qi)
+                stats["bound_checks"] += 1
+                slack = 1e-9 * e[2] + 1e-300
+                if abs(f[2] - e[2]) > eps * e[2] + slack or abs(f[0] - e[0]) > kap * e[2] + slack \
+                        or abs(f[1] - e[1]) > kap * e[2] + slack:
+                    report("theta = %s, query %d: tree sums %r are further from the all-pairs sums %r than the proved "
+                           "bound eps = 9 theta + 8 theta^2 = %g allows (forces_error_bound)"
+                           % (c["thetas"][ti], qi, f, e, eps))
+                    return
 
 
 def expected_forces(c, pts, m, kids, stats):
@@ -1021,7 +1042,7 @@ def shrink(ctx, exe, mexe, case, stats, sig=None):
 
 def new_stats():
     return {"allpairs": 0, "spec_runs": 0, "force_evals": 0, "force_compared": 0, "force_skipped_nonrobust": 0,
-            "force_full": 0, "exact_ties": 0, "f25_cracks": 0, "auto_roots": 0}
+            "force_full": 0, "exact_ties": 0, "f25_cracks": 0, "auto_roots": 0, "bound_checks": 0}
 
 
 def run_batch(ctx, exe, mexe, cases, stats, with_model=True):
@@ -1108,7 +1129,7 @@ def run(ctx):
         rule="point sets from corpus + families generic dyadic / clustered / collinear (incl. on split lines) / coincident "
              "(2..5 copies) / on cell edges and corners / magnitudes 2^-40..2^0 / points outside the root / exact ties of "
              "the summary criterion, random insertion orders, every permutation of small mixed sets, six root boxes "
-             "(square, rectangular, offset); thetas 0, 2^-60, 2^-20, 1/8, 1/2, 1, 2.  Exact stream: every cell of the "
+             "(square, rectangular, offset); thetas 0, 2^-60, 2^-20, 1/64, 1/8, 1/2, 1, 2.  Exact stream: every cell of the "
              "real tree equals the extracted model's (boxes, size, index, count, cum_size exactly; center_of_mass and "
              "force sums under a rounding bound), the extracted struct_okb runs on the real dump.  Tolerance stream "
              "(tol_auto, tol_ulp; a TEST): mean-centred constructor on random doubles and points one ulp from split "
